@@ -640,7 +640,7 @@ func ruleXZReaderChecks(c *Ctx, r *Report, prefix string) {
 		undeclared := func(sp *SeqPath, g *guard, decl role) bool {
 			for i := range o.gs {
 				h := &o.gs[i]
-				if h.call != nil || h.site != g.site {
+				if h.call != nil {
 					continue
 				}
 				if h.site != nil {
@@ -692,7 +692,7 @@ func ruleXZReaderChecks(c *Ctx, r *Report, prefix string) {
 						if nd.g == gC {
 							meas = mc
 						}
-						if o.refutedOn(&sp, meas, decl, token.LSS, nd.g.site) || undeclared(&sp, nd.g, decl) {
+						if o.refutedOn(&sp, meas, decl, token.LSS, nil) || undeclared(&sp, nd.g, decl) {
 							continue
 						}
 						r.Fail(rule, "V26-clean-eof:"+FnName(fn), c.InstrPos(sp.Exit), "a path reports the clean end of the block (io.EOF) without passing the "+nd.what, sp.Trace...)
@@ -734,7 +734,7 @@ func ruleXZReaderChecks(c *Ctx, r *Report, prefix string) {
 						if g == gCu {
 							meas = mc
 						}
-						if !(o.refutedOn(&sp, meas, decl, token.GTR, g.site) || undeclared(&sp, g, decl)) && badU == "" {
+						if !(o.refutedOn(&sp, meas, decl, token.GTR, nil) || undeclared(&sp, g, decl)) && badU == "" {
 							badU = "a path returns at " + c.InstrPos(sp.Exit) + " without an error although the test at " + c.InstrPos(g.iff) + " (measured size > declared size) was not made on it: a block longer than its header declares is accepted"
 						}
 					}
